@@ -379,8 +379,16 @@ check_gauss(const json& c)
       imf->set_max_kernel_sizes(mk);
       imf->set_normalise(normalise);
     }
+  else if (c.value("scalar_ctor", false) && fw[1] == fw[2] && fw[1] == fw[3] && m[0] == m[1] && m[0] == m[2])
+    {
+      // the overload with one FWHM and one max_kernel_size for all directions (the latter is a float parameter)
+      vf::stats().cls("gauss constructor with one fwhm / max_kernel_size for all directions");
+      arf.reset(new stir::SeparableGaussianArrayFilter<3, float>(float(fw[1]), float(m[0]), normalise));
+    }
   else
     arf.reset(new stir::SeparableGaussianArrayFilter<3, float>(fw, mk, normalise));
+  if (sigma[0] == 0 && sigma[1] == 0 && sigma[2] == 0)
+    vf::stats().cls("gauss: FWHM 0 in every direction (no filtering at all)");
 
   // run the filter on an Nd (through the image class when asked for)
   auto run = [&](const Nd& x, int md, Nd& got) -> Result {
